@@ -95,6 +95,36 @@ def paths(body):
     return r or []
 
 
+def normalised_paths(body):
+    """paths() with two spellings folded into the plain one: a test on a boolean local is replaced by the local's initialiser,
+    and `return c ? a : b;` becomes the two paths `if (c) return a; return b;`"""
+    out = []
+    for p in paths(body):
+        alts = [[]]
+        inits = {}
+        for ev in p:
+            if ev[0] == "decl" and ev[1].get("init") is not None:
+                inits[ev[1]["n"]] = ev[1]["init"]
+            if ev[0] == "cond":
+                c = astx.strip_casts(ev[1])
+                neg = False
+                while c is not None and c.get("k") == "un" and c.get("op") == "!":
+                    neg = not neg
+                    c = astx.strip_casts(c["e"])
+                if c is not None and c.get("k") == "ref" and c.get("d") == "local" and c["n"] in inits:
+                    ev = ("cond", inits[c["n"]], ev[2] != neg)
+            if ev[0] == "ret" and ev[1] is not None and astx.strip_casts(ev[1]) is not None and astx.strip_casts(ev[1]).get("k") == "cond":
+                ce = astx.strip_casts(ev[1])
+                c = astx.strip_casts(ce["c"])
+                if c is not None and c.get("k") == "ref" and c.get("d") == "local" and c["n"] in inits:
+                    c = inits[c["n"]]
+                alts = [a + [("cond", c, True), ("ret", ce["t"])] for a in alts] + [a + [("cond", c, False), ("ret", ce["f"])] for a in alts]
+                continue
+            alts = [a + [ev] for a in alts]
+        out += alts
+    return out
+
+
 def calls_in(e):
     return [x for x in astx.walk_expr(e, into_lambdas=True) if x.get("k") == "call"]
 
